@@ -115,6 +115,43 @@ def runner(pid, prop, tier, seed, scratch, replay=None):
                                         case=props.summarise_case(r.case)))
         if replay:
             print("replay: rustc %s %s\n%s" % ("accepts" if ok else "rejects", codes, err[-1500:]))
+    # the struct / enum definitions alone, compiled for i686-pc-windows-msvc (pointer width 4) without the core library
+    if not replay:
+        import gen
+        cases4 = []
+        for c in cases:
+            if c.get("gseed") is not None and len(cases4) < noracle:
+                files, exp = gen.generate(c["gseed"], 4, prop.get("profile"))
+                cases4.append(dict(id=c["id"] + "-w4", ptr=4, schedule=[], files=files, exp=exp, text=True))
+        res4 = []
+        for b0 in range(0, len(cases4), 300):
+            res4 += [r for r in engine.run(cases4[b0:b0 + 300], scratch, want_model=False) if r.hv[0] == "ok"]
+
+        def job4(r):
+            try:
+                return rustc_oracle.nocore_layout(r.h, None, scratch, re.sub(r"\W", "_", r.case["id"]), 4)
+            except Exception as e:  # noqa
+                return (False, ["oracle-error"], str(e), [])
+        with ThreadPoolExecutor(P.JOBS) as ex:
+            verdicts4 = list(ex.map(job4, res4))
+        for r, (ok, codes, err, bad) in zip(res4, verdicts4):
+            if ok:
+                oracle["i686_definitions_accepted"] += 1
+                continue
+            classes = classify(codes, r.case["files"], err) if all(re.match(r"E\d+$", c) for c in codes) else None
+            if classes:
+                for cls in sorted(set(classes)):
+                    oracle["i686_rejects_known:" + cls] += 1
+                    out["failures"].append(dict(clause="C13.typecheck_i686", kf=cls, detail="rustc (i686) %s" % codes,
+                                                case=props.summarise_case(r.case)))
+            elif codes == ["E0603"] or codes == ["E0412"]:
+                # a private type named from another module: outside the documented fragment (public types for cross-module use)
+                oracle["i686_outside_fragment:%s" % codes[0]] += 1
+            else:
+                oracle["i686_rejects_UNEXPLAINED"] += 1
+                out["failures"].append(dict(clause="C13.typecheck_i686", detail="rustc for i686-pc-windows-msvc rejects the emitted definitions: %s\n%s" % (codes, err[-1500:]),
+                                            case=props.summarise_case(r.case)))
+        out["evaluations"] += len(cases4)
     out["distinct_nontrivial"] = nontrivial
     out["distribution"] = dict(dist)
     out["oracle"] = dict(oracle)
